@@ -1,7 +1,7 @@
 (* C06 -- EXPRESS tools are memory-safe and terminate on any input: the part that is logic.
    Only statements closed by [exact]. *)
 From Coq Require Import List ZArith Bool.
-From SC Require Import gen.ExpBuffers ExpSafe ExpSafe_Proofs gen.ExprBound ExprBuf ExprBuf_Proofs.
+From SC Require Import gen.ExpBuffers ExpSafe ExpSafe_Proofs gen.ExprBound ExprBuf ExprBuf_Proofs gen.ErrArena ErrBuf ErrBufMem_Proofs.
 Import ListNotations.
 Local Open Scope Z_scope.
 
@@ -40,3 +40,16 @@ Example c06_expression_example :
                            XAggregate [(false, XNum 11%nat); (true, XNegate (XNum 22%nat)); (false, XOneof [XName 300%nat true; XBinary 64%nat])]] in
   wf e = true /\ (450 <=? written e)%nat = true /\ (bytes_stored e <=? buffer_size e)%nat = true.
 Proof. vm_compute. repeat split. Qed.
+
+(* The message buffer of -B: whatever diagnostics a file raises, every one that is buffered is formatted by writes that
+   start inside the arena of ERROR_MAX_SPACE bytes (each write is bounded by what is left: vsnprintf) and its heap entry lies
+   inside heap[ERROR_MAX_ERRORS + 1].  This does not depend on whether the length is measured first (that a message is also
+   stored whole is C20's theorem); sizes and the conditions for printing the buffer are regenerated from error.c. *)
+Theorem c06_message_buffer_in_bounds : forall ms, forallb msg_ok ms = true ->
+  forall w, In w (snd (run init ms)) ->
+  match w with
+  | Direct => True
+  | Stored a slot _ => 0 <= a <= EB_MAX_SPACE /\ 1 <= slot < EB_HEAP_SLOTS
+  end.
+Proof. exact buffer_writes_start_in_bounds. Qed.
+Print Assumptions c06_message_buffer_in_bounds.
